@@ -444,25 +444,35 @@ class JSRegExp(JSObject):
 
     @property
     def lastIndex(self) -> int:
-        return self.get("lastIndex") or 0
+        """ToLength of the script-visible lastIndex property (any value can be assigned to it)."""
+        number = to_number(self.get("lastIndex"))
+        if number != number or number <= 0:
+            return 0
+        return int(min(number, 2**53 - 1))
 
     @lastIndex.setter
     def lastIndex(self, value: int):
         self.set("lastIndex", value)
         self._internal.lastIndex = value
 
+    def _uses_last_index(self) -> bool:
+        return self._internal.global_ or self._internal.sticky
+
     def test(self, string: str) -> bool:
         """Test if the pattern matches the string."""
         self._internal.lastIndex = self.lastIndex
         result = self._internal.test(string)
-        self.lastIndex = self._internal.lastIndex
+        # Only global and sticky regexes write lastIndex; others leave the property untouched
+        if self._uses_last_index():
+            self.lastIndex = self._internal.lastIndex
         return result
 
     def exec(self, string: str):
         """Execute a search for a match."""
         self._internal.lastIndex = self.lastIndex
         result = self._internal.exec(string)
-        self.lastIndex = self._internal.lastIndex
+        if self._uses_last_index():
+            self.lastIndex = self._internal.lastIndex
 
         if result is None:
             return NULL
